@@ -116,7 +116,8 @@ func (c *controlConn) heartBeat() {
 		case error:
 			goto reconn
 		default:
-			panic(fmt.Sprintf("gocql: unknown frame in response to options: %T", resp))
+			// a frame that is no answer to OPTIONS: reconnect instead of crashing
+			goto reconn
 		}
 
 	reconn:
